@@ -511,7 +511,7 @@ def ad_plans(prop, quick):
             ("GSpec", "edge", ad_base(Depth=D, Caps={1}, InitLens={2}, Modes={"dyninit"}, Params={1, 2}, PipeFlavs={"plain"}), 0),
             ("GSpecTxnSmall", "edge", ad_base(Depth=D + 2, InitLens={2}, Modes={"static"}, Params={2}, MaxLen=4), 0),
             ("GSpecTxn", "sim", ad_base(Depth=40, Caps={1, 2, 16}, InitLens={0, 1, 3, 5}, Params={0, 1, 2, 3, 5, 8}, MaxLen=8,
-                                        PipeFlavs=both), sim_n(500, 20000))]
+                                        PipeFlavs=both), sim_n(500, 6000))]
     if prop == "C10":
         K = {"filter", "filter_map"}
         return [("GSpec", "edge", ad_base(StageKinds=K, Depth=D, InitLens={3}, PipeFlavs=both), 0),
@@ -519,7 +519,7 @@ def ad_plans(prop, quick):
                 ("GSpec", "edge", ad_base(StageKinds=K, Depth=D if quick else D + 1, Caps={1}, InitLens={2}, MaxLen=3, PipeFlavs=both), 0),
                 ("GSpecTxnSmall", "edge", ad_base(StageKinds=K, Depth=D + 2, InitLens={2}, MaxLen=4, PipeFlavs={"batched"}), 0),
                 ("GSpecTxn", "sim", ad_base(StageKinds=K, Depth=40, Caps={1, 2, 16}, InitLens={0, 1, 3, 5}, MaxLen=8,
-                                            PipeFlavs=both), sim_n(500, 20000))]
+                                            PipeFlavs=both), sim_n(500, 6000))]
     if prop == "C11":
         K = {"sort", "sort_by", "sort_by_key"}
         return [("GSpec", "edge", ad_base(StageKinds=K, Depth=D, InitLens={3}, MaxLen=4, PipeFlavs={"batched"}), 0),
@@ -527,28 +527,28 @@ def ad_plans(prop, quick):
                 ("GSpec", "edge", ad_base(StageKinds=K, Depth=D if quick else D + 1, Caps={1}, InitLens={2}, MaxLen=3), 0),
                 ("GSpecTxnSmall", "edge", ad_base(StageKinds=K, Depth=D + 2, InitLens={3}, MaxLen=5), 0),
                 ("GSpecTxn", "sim", ad_base(StageKinds=K, Depth=40, Caps={1, 2, 16}, InitLens={0, 1, 3, 5, 7}, MaxLen=9,
-                                            PipeFlavs=both), sim_n(500, 20000))]
+                                            PipeFlavs=both), sim_n(500, 6000))]
     if prop == "C12":
         return [("GSpecCore", "tree", ad_base(StageKinds=ALL_KINDS, NStages={2}, Depth=3 if quick else 4, InitLens={3}, Modes={"dyn", "static"},
                                               Params={2}, SelfObs={0, 1}, MaxLen=5, CoreSet="lean"), 0),
                 ("GSpecTxn", "sim", ad_base(StageKinds=ALL_KINDS, NStages={2, 3}, Depth=30, Caps={2, 16}, InitLens={0, 2, 4, 6},
                                             Params={0, 1, 2, 4}, MaxLen=8, SelfObs={0, 1}, PipeFlavs=both),
-                 sim_n(1500, 40000))]
+                 sim_n(1500, 10000))]
     if prop == "C13":
         fixed = dict(Modes={"static"}, PipeFlavs={"twin", "batched"})
         return [("GSpecTxnSmall", "edge", ad_base(StageKinds={"head", "tail", "skip", "filter", "sort"}, Depth=D + 2,
                                                   InitLens={0, 2}, Params={1}, MaxLen=4, Modes={"static"},
                                                   PipeFlavs={"twin"}), 0),
                 ("GSpecTxn", "sim", ad_base(StageKinds=ALL_KINDS, NStages={1, 2}, Depth=40, Caps={16, 64}, InitLens={0, 2, 5}, Params={0, 1, 3},
-                                            MaxLen=8, **fixed), sim_n(800, 30000)),
+                                            MaxLen=8, **fixed), sim_n(800, 8000)),
                 ("GSpecTxn", "sim", ad_base(StageKinds=ALL_KINDS, NStages={1, 2}, Depth=40, Caps={1, 16}, InitLens={0, 2, 5}, Params={0, 1, 3},
-                                            MaxLen=8, PipeFlavs={"batched"}), sim_n(400, 20000))]
+                                            MaxLen=8, PipeFlavs={"batched"}), sim_n(400, 5000))]
     if prop == "C14":
         return [("GSpec", "edge", ad_base(StageKinds=ALL_KINDS, Depth=D, InitLens={2}, Modes={"dyn"}, Params={1, 3}, PipeFlavs=both), 0),
                 ("GSpecLimits", "tree", ad_base(Depth=D if quick else D + 1, Modes={"dyninit"}, Params={1, 3, 4}, InitLens={2}, PipeFlavs=both), 0),
                 ("GSpecCore", "tree", ad_base(StageKinds=ALL_KINDS - LIMIT_KINDS, Depth=D, CoreSet="lean", InitLens={2}, MaxLen=4), 0),
                 ("GSpecTxn", "sim", ad_base(StageKinds=ALL_KINDS, NStages={1, 2, 3}, Depth=40, Caps={1, 16}, InitLens={0, 2, 5}, Params={0, 1, 3},
-                                            MaxLen=8, SelfObs={0, 1}, PipeFlavs=both), sim_n(1000, 30000))]
+                                            MaxLen=8, SelfObs={0, 1}, PipeFlavs=both), sim_n(1000, 8000))]
     if prop == "C15":
         K = {"head", "tail"}
         return [("GSpec", "edge", ad_base(StageKinds=K, Depth=D, Modes={"static"}, InitLens={3},
@@ -558,7 +558,7 @@ def ad_plans(prop, quick):
                 ("GSpecTxnSmall", "edge", ad_base(StageKinds=K, Depth=D + 2, Modes={"static"}, InitLens={3}, Params={2}, MaxLen=5,
                                                   PipeFlavs={"batched"}), 0),
                 ("GSpecTxn", "sim", ad_base(StageKinds=K, Depth=40, Caps={1, 16}, Modes={"static"}, InitLens={0, 2, 5, 8}, Params={0, 1, 2, 3, 5},
-                                            MaxLen=10, PipeFlavs=both), sim_n(500, 20000))]
+                                            MaxLen=10, PipeFlavs=both), sim_n(500, 6000))]
     raise ToolError("no adapters plan for " + prop)
 
 
@@ -1017,7 +1017,7 @@ def lin_collect(prop, tier, seed, work, beh_path, offset):
     inputs = os.path.join(work, "lin-in.ndjson")
     open(inputs, "w").close()
     nsched = 0
-    choices = dict(C02=["setpoll", "drop2", "uniq"], C03=["drop2", "dropup", "uniq"], C04=["setpoll", "drop2", "dropup"])[prop]
+    choices = dict(C02=["setpoll", "drop2", "uniq"], C03=["drop2", "dropup", "uniq"], C04=["setpoll", "drop2", "dropup", "guards"])[prop]
     for ch in choices:
         # design level: the repaired model (atomic drop decision) satisfies the invariants for all interleavings
         c = os.path.join(work, "MCObsConc-%s.cfg" % ch)
